@@ -103,7 +103,8 @@ class Runner:
         self.ev = []
         self.shape = None
         self.dir = tempfile.mkdtemp(prefix="evo-")
-        self.shared_hp = zoo.hp_config(algo) if shared_hp else None
+        self.shared_hp = zoo.hp_config(algo) if shared_hp is True else None
+        self.hp_mode = shared_hp
         self.mutations = {}
         self.wrapped = wrapped
 
@@ -187,7 +188,7 @@ class Runner:
         if op[0] == "create":
             _, s, seed = op
             e["a"] = s
-            hp = self.shared_hp
+            hp = zoo.hp_config(algo, only_lr=True) if self.hp_mode == "lr" else self.shared_hp
             ag = zoo.make_agent(algo, self.family, seed=seed, index=s - 1, hp=hp)
             if self.shape is None:
                 self.shape = shape_of(ag)
